@@ -15,7 +15,9 @@ out=["# Seeded changes\n",
 "(what we ran and saw) and `verify.log`. Every change was confirmed independently in a fresh worktree",
 "(`scripts/verify_seed.sh`: patch applies, `go build`/`go vet`/full suite pass with it, demo passes without and",
 "fails with it) before the checks were run against it (`git -C /repo apply`, `./check <id> quick`, `git checkout`).",
-"None of these changes is committed in /repo.\n",
+"None of these changes is committed in /repo. Patches that stopped applying when later `fix:` commits touched the same lines",
+"were re-based onto the current HEAD and verified again (`rebased` in meta.json; the first version is patch.orig.diff);",
+"one (C19-b) lost its mechanism to such a fix and is kept as verified at the time (`superseded` in meta.json).\n",
 "| Seed | breaks | verified | needs to manifest (short) | caught by (quick tier): signatures | missed |",
 "|---|---|---|---|---|---|"]
 for name,d in rows:
